@@ -73,6 +73,9 @@ def jobs(prop: str, tier: str, seed: int):
         optsets = [{}]
         if has_obj(spec):
             optsets = OBJ_OPTS if tier == "thorough" else OBJ_OPTS[:4]
+        if any(s.k == "obj" and s.opt("kind") == "typeddict" for s in walk(spec)):
+            # undeclared keys are kept: they meet the Python names of the declared ones
+            optsets = optsets + [{"aliaser": "prefix", "additional_properties": True}]
         if pid.startswith("rnd:"):
             optsets = [{}]
         big = n_positions(spec) >= 8
